@@ -277,9 +277,36 @@ def switch_family():
                 rg, rw = branches[k].importance(KEY, c, args[1 + k])
                 if not (close(w, rw) and close(g.get_score(), rg.get_score())):
                     fail("switch.generate: weight/score not the executed branch's", idx=idx, w=w, want=rw)
-                s, r = sw.assess(g.get_choices(), args)
+                # (assess evaluates every branch: the sample supplies the executed branch's choices and a value for the others)
+                full = g.get_choices() | C.kw(u=0.0, v=0.0, w=0.0)
+                s, r = sw.assess(full, args)
                 if not close(s, rg.get_score()):
                     fail("switch.assess: score not the executed branch's", idx=idx)
+    # or_else: the if-branch iff the flag is true - Python bools and arrays
+    b_if, b_else = gen(lambda m: normal(m, 1.0) @ "a"), gen(lambda m: normal(m, 0.1) @ "b")
+    oe = b_if.or_else(b_else)
+    for flag in (True, False, jnp.array(True), jnp.array(False)):
+        tr = oe.simulate(KEY, (flag, (0.0,), (5.0,)))
+        ch = tr.get_choices()
+        name, mu, sd = ("a", 0.0, 1.0) if bool(flag) else ("b", 5.0, 0.1)
+        want = normal.assess(C.choice(val(ch[name])), (mu, sd))[0]
+        if not close(tr.get_score(), want):
+            fail("or_else.simulate: score is not the density of the branch the flag selects", flag=flag, score=tr.get_score(), want=want)
+        s, _ = oe.assess(C.kw(a=0.3, b=0.3), (flag, (0.0,), (5.0,)))        # (all branches are assessed: both addresses supplied)
+        if not close(s, normal.assess(C.choice(0.3), (mu, sd))[0]):
+            fail("or_else.assess: not the density of the branch the flag selects", flag=flag, got=s)
+    # mix: score = log softmax(logits)[k] + density of component k, also for logits that are not log-normalised
+    mx = genjax.mix(b_if, b_else)
+    for logits in (jnp.array([0.3, 0.7]), jnp.log(jnp.array([0.25, 0.75])), jnp.array([3.3, 3.7])):
+        for k in (0, 1):
+            name, mu, sd = ("a", 0.0, 1.0) if k == 0 else ("b", 5.0, 0.1)
+            c = C.kw(mixture_component=k) | C.d({("component_sample", "a"): 0.4, ("component_sample", "b"): 0.4})
+            s, _ = mx.assess(c, (logits, (0.0,), (5.0,)))
+            want = jax.nn.log_softmax(logits)[k] + normal.assess(C.choice(0.4), (mu, sd))[0]
+            if not close(s, want):
+                fail("mix.assess: score != log softmax(logits)[k] + component density", logits=logits, k=k, got=s, want=want)
+        tr = mx.simulate(KEY, (logits, (0.0,), (5.0,)))
+        wf(tr, "mix.simulate")
 
 
 def vmap_family():
@@ -1533,14 +1560,37 @@ FAMILIES = [
     (("C30.",), vi_family), (("C29.", "TailCallADEVPrimitive"), adev_family), (("C28.", "sample_momenta"), hmc_family), (("C20.", "FlagOp", "multi_switch", "tree_choose"), staging_family), (("C33.",), invalid_subset_family),
     (("C38.",), derived_family), (("C36.",), stateful_family), (("C09.", "incremental"), incremental_family), (("C04.",), key_family), (("C21.",), pytree_family), (("C25.", "Marginal"), marginal_family), (("C27.", "Rejuvenate"), rejuvenate_family), (("C31.",), time_travel_family), (("C17.",), choice_map_family), (("C26.",), smc_family),
     (("MaskCombinator", "MaskTrace"), mask_family), (("Distribution", "ExactDensity", "C24."), distribution_family),
-    (("Dimap",), dimap_family), (("Switch",), switch_family), (("Vmap", "repeat"), vmap_family),
+    (("Dimap",), dimap_family), (("Switch", ".or_else.", ".mix."), switch_family), (("Vmap", "repeat"), vmap_family),
     (("Scan", "iterate", "accumulate", "reduce", "masked_iterate"), scan_family),
     (("Handler", "StaticGenerativeFunction", "StaticTrace"), static_family),
     (("GenerativeFunctionClosure", "IgnoreKwargs", "partial_apply", "handle_kwargs"), closure_family),
 ]
 
 
+def selftest():
+    """every battery must be SILENT on a tree where the properties hold (run by the thorough tier on the tree under check, with
+    the known-finding replays switched off): a battery that fails or raises there is a false alarm of the replay harness"""
+    global OB
+    out = {}
+    seen = []
+    for keys, fn in FAMILIES:
+        if fn in seen:
+            continue
+        seen.append(fn)
+        OB = "selftest"
+        del FAILS[:]
+        try:
+            fn()
+            out[fn.__name__] = [w for w, _ in FAILS[:3]]
+        except Exception as e:
+            out[fn.__name__] = [f"RAISED {type(e).__name__}: {str(e).splitlines()[0][:160]}"]
+    print(json.dumps({"batteries": len(out), "noisy": {k: v for k, v in out.items() if v}}))
+    return 0
+
+
 def main():
+    if sys.argv[1] == "--selftest":
+        return selftest()
     rec = json.load(open(sys.argv[1]))
     global OB
     ob = OB = rec["obligation"]
@@ -1556,9 +1606,13 @@ def main():
         fam()
     except Exception as e:
         import traceback
-        print("native checker raised on the real code:", type(e).__name__, str(e).splitlines()[0][:200])
+        # an exception that escapes a battery is NOT evidence of a violation (it may be a defect of the battery): no verdict.
+        # Sites where the real code raising IS the violation are wrapped by the battery itself and reported through fail()
+        print("native checker raised (no verdict):", type(e).__name__, str(e).splitlines()[0][:200])
         traceback.print_exc(limit=3)
-        FAILS.append((f"{fam.__name__}: real code raised {type(e).__name__}", {}))
+        for what, kw in FAILS[:12]:
+            print("NATIVE-FAIL:", what, kw)
+        return 1 if FAILS else 2
     for what, kw in FAILS[:12]:
         print("NATIVE-FAIL:", what, kw)
     print(f"{len(FAILS)} native failure(s) in {fam.__name__} for {ob}")
